@@ -379,6 +379,13 @@ def check_fit_predict(run, A):
                 ok = all(a.op == 'param' for a in args) and len(args) >= 1
                 if not ok:
                     detail = 'predict is not called on the untouched observation parameters'
+                # the posterior that is RETURNED is the unclipped one: the posterior routine clips to [eps, 1 - eps] without renormalising (fine for
+                # the E-steps inside fit, where the M-step renormalises), so the training clip constant must not reach the final predict
+                clipped = [a for a in args if any(x.op == 'param' and x.args[0] == 'affiliation_eps' for x in walk_terms(a))]
+                if ok and clipped:
+                    ok = False
+                    detail = ('the final predict receives the training option affiliation_eps: the returned posterior is clipped to [eps, 1 - eps] and not renormalised '
+                              '(class sums exceed one for K >= 3; it is no longer the Bayes posterior of the fitted model)')
             else:
                 detail = 'receiver of predict is not the model returned by self.fit'
         else:
